@@ -216,6 +216,10 @@ pub fn get_insertion_index(position: &Position, text: &str) -> usize {
             return i;
         }
         if c == '\n' {
+            if line == position.line {
+                // a column behind the end of a line means the end of that line
+                return i;
+            }
             line += 1;
             character = 0;
         } else {
